@@ -90,6 +90,7 @@ class Trace:
         maps = {}              # (client, entity) -> pre-spawn id the server registered
         pre_dead = set()       # (client, pre id) the client's own logic despawned
         pre_dead_pending = {}
+        follows = {}           # entity -> target of its relationship (script level)
         pending_sops = []
         spec_marked = {}       # entity -> bool (alive and carrying the marker)
         spec_vis = {}          # (client, entity) -> most recent setting since the entity last started replicating
@@ -165,6 +166,14 @@ class Trace:
                             emitted[sq] = dict(ty=ty, mode=mode, step=i, connected={c: sess_id[c] for c in connected},
                                                ent=op[4] if len(op) > 4 else None, running=True)
                         continue
+                    if op[0] == "rel":
+                        e_, t_ = int(op[1]), int(op[2])
+                        if spec_marked.get(e_) is not None and spec_marked.get(t_) is not None and e_ in spec_marked and t_ in spec_marked and e_ != t_:
+                            follows[e_] = t_
+                        continue
+                    if op[0] == "unrel":
+                        follows.pop(int(op[1]), None)
+                        continue
                     if op[0] == "map":
                         c_, e_, pc_ = int(op[1]), int(op[2]), int(op[3])
                         if c_ in authorized:
@@ -178,6 +187,9 @@ class Trace:
                         e = int(op[1])
                         for k_ in [k_ for k_ in maps if k_[1] == e]:
                             del maps[k_]      # the mapping is consumed once the entity leaves the client
+                        follows.pop(e, None)
+                        for k_ in [k_ for k_, v_ in follows.items() if v_ == e]:
+                            del follows[k_]   # sources lose the relationship with their target
                         if e in spec_marked:
                             spec_marked[e] = None          # dead
                             for k in [k for k in spec_vis if k[1] == e]:
@@ -295,6 +307,25 @@ class Trace:
                             if view and not got_upd:
                                 self.add("C07", i, "newly authorized client %d was not sent the visible state" % c)
                             auth_tick_pending.discard(c)
+                # entities connected through the registered relationship (source replicated) are updated together
+                edges = [(a_, b_) for a_, b_ in follows.items() if spec_marked.get(a_)]
+                def component(x):
+                    seen, todo = {x}, [x]
+                    while todo:
+                        y = todo.pop()
+                        for a_, b_ in edges:
+                            for p_, q_ in ((a_, b_), (b_, a_)):
+                                if p_ == y and q_ not in seen:
+                                    seen.add(q_)
+                                    todo.append(q_)
+                    return seen
+                for c, msgs in muts_this_tick.items():
+                    for mi_, m in enumerate(msgs):
+                        for x in m:
+                            comp = component(x)
+                            for mj_, m2 in enumerate(msgs):
+                                if mj_ != mi_ and any(y in comp for y in m2):
+                                    self.add("C10", i, "client %d: entities %d and %r are related but travel in different mutate messages of one tick" % (c, x, [y for y in m2 if y in comp]))
                 for c, msgs in muts_this_tick.items():
                     flat = [e for m in msgs for e in m]
                     if len(flat) != len(set(flat)):
